@@ -103,8 +103,27 @@ func mustJSON(v interface{}) string {
 	return string(b)
 }
 
+// probe wraps a generic state: same JSON, same YAML, but viper's YAML encoder calls MarshalYAML after it
+// has opened (and truncated) the file it is writing and before it writes — the one instant of a save
+// that no verifPoint can reach.  f takes the directory snapshot.
+type probe struct {
+	v interface{}
+	f func()
+}
+
+func (p probe) MarshalJSON() ([]byte, error) { return json.Marshal(p.v) }
+func (p probe) MarshalYAML() (interface{}, error) {
+	if p.f != nil {
+		p.f()
+	}
+	return p.v, nil
+}
+
 // canonSent is the canonical text of a value as it is handed to the updater under `tag`.
 func canonSent(tag string, state interface{}) string {
+	if p, ok := state.(probe); ok {
+		state = p.v
+	}
 	key := strings.ToLower(tag)
 	if typedZero(key) != nil {
 		switch state.(type) {
@@ -139,15 +158,34 @@ func canonFromText(tag, text string) string {
 	return normJSON(g)
 }
 
-// canonEntries renders every top-level key of a viper instance holding a configuration that was read
-// from a file (or merged from a map).  keep filters the keys (nil: all).
-func canonEntries(v *viper.Viper, keep func(string) bool) []Entry {
-	settings := v.AllSettings()
-	var out []Entry
-	for k := range settings {
-		if keep != nil && !keep(k) {
+// topLevelKeys names the top-level keys of a YAML mapping as yaml.v3 writes it (lines starting in column 0
+// with `key:`), lower-cased as viper treats keys.  viper.AllSettings cannot be used for this: it leaves out
+// a key whose value has no leaf, such as grouptrigger: {connections: {}}.
+func topLevelKeys(b []byte) []string {
+	var keys []string
+	for _, line := range strings.Split(string(b), "\n") {
+		if line == "" || line[0] == ' ' || line[0] == '\t' || line[0] == '#' || line[0] == '-' {
 			continue
 		}
+		i := strings.Index(line, ":")
+		if i <= 0 {
+			continue
+		}
+		keys = append(keys, strings.ToLower(strings.Trim(line[:i], `"'`)))
+	}
+	return keys
+}
+
+// canonEntries renders the given top-level keys of a viper instance holding a configuration that was read
+// from a file (or merged from a map).
+func canonEntries(v *viper.Viper, keys []string) []Entry {
+	var out []Entry
+	seen := map[string]bool{}
+	for _, k := range keys {
+		if seen[k] || v.Get(k) == nil {
+			continue
+		}
+		seen[k] = true
 		var text string
 		if z := typedZero(k); z != nil {
 			if err := v.UnmarshalKey(k, z); err != nil {
@@ -171,7 +209,7 @@ func parseYAML(b []byte) ([]Entry, bool) {
 	if err := v.ReadConfig(bytes.NewReader(b)); err != nil {
 		return nil, false
 	}
-	return canonEntries(v, nil), true
+	return canonEntries(v, topLevelKeys(b)), true
 }
 
 func entriesFromSettings(settings map[string]interface{}, inConfig []string) ([]Entry, error) {
@@ -179,11 +217,7 @@ func entriesFromSettings(settings map[string]interface{}, inConfig []string) ([]
 	if err := v.MergeConfigMap(settings); err != nil {
 		return nil, err
 	}
-	in := map[string]bool{}
-	for _, k := range inConfig {
-		in[k] = true
-	}
-	return canonEntries(v, func(k string) bool { return in[k] }), nil
+	return canonEntries(v, inConfig), nil
 }
 
 func entriesEqual(a, b []Entry) bool {
